@@ -361,7 +361,11 @@ class Run:
                 if x['need'] == 'may' and x['done'] > 1:
                     self.err('direct/watcher-called-twice', f'w{wid} (may) called {x["done"]}x for {key}')
                 if x['need'] == 'skip' and x['done'] > 0:
-                    if frame['in_trigger_cb']:
+                    if self.queued_ran and sum(1 for t in self.op_hist.get(key, []) if t is value) > 1:
+                        # identical object assigned more than once in a window with queued callbacks: the call may be the
+                        # deferred delivery of the other (qualifying) assignment of that object
+                        self.stats['direct_ambiguous_identical_object'] = self.stats.get('direct_ambiguous_identical_object', 0) + 1
+                    elif frame['in_trigger_cb']:
                         self.err('direct/changes-only-not-skipped/assignment-inside-triggered-callback',
                                  f'w{wid} ran for an EQUAL assignment to {key} made by a callback running under trigger')
                     else:
